@@ -191,6 +191,13 @@ func main() {
 			[]string{"/a/{p}", "/{p}/a"},
 			[]string{"/name/{id}/{foo}1234{bar}-{baz}!{kek}"},
 		)
+		// static text made of other unreserved characters (dots of versions and file extensions, '_',
+		// '~') and parameters delimited by reserved characters that net/url escapes ('!', '*') or
+		// leaves alone (':', ';', '=')
+		sets = append(sets,
+			[]string{"/v1.0/status", "/{p}/status"}, []string{"/files/{p}.json"}, []string{"/files/{p}.json", "/files/{p}.json/meta"}, []string{"/docs/index.html", "/docs/{p}"},
+			[]string{"/a_b/{p}~c"}, []string{"/t/{p}!{q}"}, []string{"/t/{p}*"}, []string{"/r/{p}:{q}"}, []string{"/r/{p};v={q}"}, []string{"/files/{p}.{q}"},
+		)
 		if r.Thorough() {
 			red := templatesOver([]string{"a", "{p}", "a{p}", "{p}a"}, 2)
 			for _, s := range subsets(red, 3) {
